@@ -198,7 +198,7 @@ impl<D: DataMut, BRT: BlindRotationAlgo> FillUniform for BlindRotationKey<D, BRT
 
 impl<D: DataMut, BRT: BlindRotationAlgo> ReaderFrom for BlindRotationKey<D, BRT> {
     fn read_from<R: std::io::Read>(&mut self, reader: &mut R) -> std::io::Result<()> {
-        self.dist = Distribution::read_from(reader)?;
+        let dist = Distribution::read_from(reader)?;
         let len: usize = reader.read_u64::<LittleEndian>()? as usize;
         if self.keys.len() != len {
             return Err(std::io::Error::new(
@@ -209,6 +209,7 @@ impl<D: DataMut, BRT: BlindRotationAlgo> ReaderFrom for BlindRotationKey<D, BRT>
         for key in &mut self.keys {
             key.read_from(reader)?;
         }
+        self.dist = dist;
         Ok(())
     }
 }
